@@ -19,3 +19,6 @@ Tactics.vos Tactics.vok Tactics.required_vos: Tactics.v PyAst.vos PyVal.vos PySe
 Interp.vo Interp.glob Interp.v.beautified Interp.required_vo: Interp.v 
 Interp.vio: Interp.v 
 Interp.vos Interp.vok Interp.required_vos: Interp.v 
+Corr.vo Corr.glob Corr.v.beautified Corr.required_vo: Corr.v PyAst.vo PyVal.vo PySem.vo XLemmas.vo Tactics.vo
+Corr.vio: Corr.v PyAst.vio PyVal.vio PySem.vio XLemmas.vio Tactics.vio
+Corr.vos Corr.vok Corr.required_vos: Corr.v PyAst.vos PyVal.vos PySem.vos XLemmas.vos Tactics.vos
